@@ -203,6 +203,14 @@ class Hist1D:
 
     __rmul__ = __mul__
 
+    def _sum_error(self, other):
+        """errors in quadrature; an infinite error marks an empty bin, which
+        adds nothing, so the sum is empty only where both are"""
+        e1 = np.where(np.isinf(self.error), 0.0, self.error)
+        e2 = np.where(np.isinf(other.error), 0.0, other.error)
+        both = np.isinf(self.error) & np.isinf(other.error)
+        return np.where(both, np.inf, np.sqrt(e1**2 + e2**2))
+
     def __add__(self, other):
         assert np.allclose(
             self.binning, other.binning
@@ -210,7 +218,7 @@ class Hist1D:
         return Hist1D(
             self.binning,
             self.count + other.count,
-            np.sqrt(self.error**2 + other.error**2),
+            self._sum_error(other),
         )
 
     def __sub__(self, other):
@@ -220,7 +228,7 @@ class Hist1D:
         return Hist1D(
             self.binning,
             self.count - other.count,
-            np.sqrt(self.error**2 + other.error**2),
+            self._sum_error(other),
         )
 
     @staticmethod
